@@ -14,6 +14,7 @@ import concurrent.futures
 import json
 import os
 import re
+import shutil
 import subprocess
 import sys
 import threading
@@ -31,7 +32,6 @@ PROPS = os.path.join(vlib.SPEC, "props")
 def build_hostgen(src):
     lock = os.path.join(HOSTGEN, "Cargo.lock")
     if not os.path.exists(lock):
-        import shutil
         shutil.copy(os.path.join(vlib.REPO, "Cargo.lock"), lock)
     env = dict(os.environ, CARGO_NET_OFFLINE="true", C36_SRC=src)
     t0 = time.time()
@@ -45,9 +45,9 @@ def build_hostgen(src):
     return time.time() - t0
 
 
-def run_one(src, case, timeout=60):
+def run_one(src, case, timeout=60, binary=None):
     try:
-        p = subprocess.run(["timeout", str(timeout), HOSTGEN_BIN, src, case["main"]],
+        p = subprocess.run(["timeout", str(timeout), binary or HOSTGEN_BIN, src, case["main"]],
                            stdout=subprocess.PIPE, stderr=subprocess.PIPE, text=True)
     except OSError as e:
         raise vlib.ToolError("cannot run abra_hostgen: %s" % e)
@@ -80,29 +80,60 @@ def write_sources(src, cases):
     return len(seen)
 
 
-def execute(src, cases, jobs=12):
+def execute(src, cases, jobs=12, binary=None):
     with concurrent.futures.ThreadPoolExecutor(max_workers=jobs) as ex:
-        return list(ex.map(lambda c: run_one(src, c), cases))
+        return list(ex.map(lambda c: run_one(src, c, binary=binary), cases))
+
+
+def build_and_run(wd, cases, chunk=500):
+    """one hostgen build per chunk of cases (the host file of a chunk declares every function of the chunk);
+    the cases of a chunk run, each in its own process, while the next chunk is being built"""
+    chunks = [cases[i:i + chunk] for i in range(0, len(cases), chunk)]
+    obs, build_s, ntypes = [None] * len(chunks), 0.0, 0
+    t_run = [0.0]
+    runner = concurrent.futures.ThreadPoolExecutor(max_workers=1)
+    futs = []
+
+    def run_chunk(i, src, binary):
+        t0 = time.time()
+        obs[i] = execute(src, chunks[i], binary=binary)
+        t_run[0] += time.time() - t0
+    try:
+        for i, ch in enumerate(chunks):
+            cdir = os.path.join(wd, "chunk%d" % i)
+            src = os.path.join(cdir, "src")
+            ntypes += write_sources(src, ch)
+            build_s += build_hostgen(src)
+            binary = os.path.join(cdir, "abra_hostgen")
+            shutil.copy(HOSTGEN_BIN, binary)
+            futs.append(runner.submit(run_chunk, i, src, binary))
+        for f in futs:
+            f.result()
+    finally:
+        runner.shutdown(wait=True)
+    return [o for ch in obs for o in ch], build_s, t_run[0], ntypes, len(chunks)
 
 
 def shape(c):
     """the case without the per-case numbering of its names"""
-    return re.sub(r"\b(Sa|Ea|hf|hx|Hf|Hx)\d+", r"\1", c["decl"] + "\n" + "\n".join(c["text"].splitlines()[-8:]))
+    return re.sub(r"\b(Sa|Ea|hf|hx|Hf|Hx)\d+", r"\1", c["decl"] + "\n" + c["text"])
 
 
 def protocol_check(tier, results):
     """TLC model-checks HostAbi: all laws in mode "spec"; in mode "code" the layout laws fail exactly on the defect family"""
     suffix = "_d3" if tier == "thorough" else ""
-    for mode, cfg in (("spec", "C36Abi%s.cfg" % suffix), ("code", "C36Abi_code%s.cfg" % suffix)):
-        res = vlib.tlc(os.path.join(PROPS, "C36Abi.tla"), cfg=os.path.join(PROPS, cfg), timeout=1500,
-                       metadir=os.path.join(vlib.WORK, "_meta", "C36Abi_%s_%d" % (mode, os.getpid())))
-        results[mode] = res
+
+    def one(mode, cfg):
+        results[mode] = vlib.tlc(os.path.join(PROPS, "C36Abi.tla"), cfg=os.path.join(PROPS, cfg), timeout=1500,
+                                 metadir=os.path.join(vlib.WORK, "_meta", "C36Abi_%s_%d" % (mode, os.getpid())))
+    with concurrent.futures.ThreadPoolExecutor(max_workers=2) as ex:
+        for f in [ex.submit(one, "spec", "C36Abi%s.cfg" % suffix), ex.submit(one, "code", "C36Abi_code%s.cfg" % suffix)]:
+            f.result()
 
 
 def run(prop, tier, seed):
     rep = vlib.Report(prop, tier, seed, "translation_validation")
     wd = vlib.workdir(prop)
-    src = os.path.join(wd, "src")
 
     # 1. protocol model checking, in the background while the cases are generated and run
     mc = {}
@@ -119,20 +150,13 @@ def run(prop, tier, seed):
     try:
         # 2. cases from TLC
         xcases, xres = vlib.gen_enumerate(prop, os.path.join(PROPS, "C36X.tla"))
-        n = 150 if tier == "quick" else 2500
+        n = 100 if tier == "quick" else 2000
         rcases, rres = vlib.gen_simulate(prop, os.path.join(PROPS, "C36.tla"), n, seed)
         cases = xcases + rcases
         if len(xcases) < 100 or len(rcases) < n:
             raise vlib.ToolError("generators produced %d + %d cases" % (len(xcases), len(rcases)))
-        ntypes = write_sources(src, cases)
-
-        # 3. the real binding generator + rustc on its output
-        build_s = build_hostgen(src)
-
-        # 4. run and compare
-        t0 = time.time()
-        obs = execute(src, cases)
-        run_s = time.time() - t0
+        # 3. the real binding generator + rustc on its output, 4. run
+        obs, build_s, run_s, ntypes, nchunks = build_and_run(wd, cases, 600 if tier == "quick" else 500)
     finally:
         th.join()
     if mc_err:
@@ -173,11 +197,12 @@ def run(prop, tier, seed):
                              % (len(not_compiled), len(cases), not_compiled[:2]))
 
     ran = [c for c, o in zip(cases, obs) if o.get("status") != "compile"]
-    nontrivial = [c for c in ran if c["sig"]["keep"] or any(k != "void" for k in c["kinds"])]
-    kinds = {}
+    nontrivial = [c for c in ran if any(k in ("int", "float", "bool", "str") for k in c["feat"])]
+    feats = {}
     for c in ran:
-        for k in c["kinds"]:
-            kinds[k] = kinds.get(k, 0) + 1
+        for k in c["feat"]:
+            feats[k] = feats.get(k, 0) + 1
+    feats = dict(sorted(feats.items()))
     hist = lambda f: {str(k): sum(1 for c in ran if f(c) == k) for k in sorted({f(c) for c in ran})}  # noqa
     rep.coverage = {
         "programs": len(ran), "disagreements_checked": len(ran), "evaluations": len(ran),
@@ -186,13 +211,13 @@ def run(prop, tier, seed):
                 "a #host struct, a #host enum (void allowed as component) x 3 representative values (C36X.tla, TLC model-checking "
                 "mode, states = cases); random: signatures of arity 0..3, parameter types of depth <= 2 over the same atoms with "
                 "per-case generated #host struct/enum definitions and random values (C36.tla, tlc -simulate seed %d). "
-                "non-trivial = at least one non-void parameter; distinct = distinct (declaration, caller) texts after "
+                "non-trivial = at least one parameter that carries a scalar somewhere; distinct = distinct (declaration, caller) texts after "
                 "removing the per-case numbering of names" % seed,
         "exhaustive_cases": len(xcases), "random_cases": len(rcases), "exhaustive": False,
         "exhaustive_part_complete": True,
         "host_functions_generated": len(cases), "host_types_generated": ntypes,
         "by_arity": hist(lambda c: c["arity"]), "by_depth": hist(lambda c: c["depth"]),
-        "by_ret_shape": hist(lambda c: c["sig"]["ret"]), "type_constructor_occurrences": kinds,
+        "cases_per_feature": feats,
         "cases_in_known_defect_family": sum(1 for c in ran if c.get("key")),
         "cases_in_known_defect_family_failed": stats["keyed_failed"],
         "cases_outside_defect_families": sum(1 for c in ran if not c.get("key")),
@@ -204,7 +229,7 @@ def run(prop, tier, seed):
         "traces_validated_against_impl": len(ran),
         "tlc_wall_s": {"abi_spec": round(mc["spec"].wall, 1), "abi_code": round(mc["code"].wall, 1),
                        "enumerate": round(xres.wall, 1), "simulate": round(rres.wall, 1)},
-        "hostgen_build_s": round(build_s, 1), "run_s": round(run_s, 1),
+        "hostgen_builds": nchunks, "hostgen_build_s": round(build_s, 1), "run_s": round(run_s, 1),
         "samples": [{k: c[k] for k in ("id", "decl", "text", "expect", "sig") if k in c} | ({"key": c["key"]} if c.get("key") else {})
                     for c in (xcases[100:101] + rcases[:2])],
     }
